@@ -169,3 +169,43 @@ def prop_derived(n):
         return prop(n)
     finally:
         event = saved
+
+
+# ---- properties whose disjunctions are DERIVED (copy-with-changes) from disjunctions that were already used ----------
+def derive_disjunctions(p, fresh_names):
+    """A property like p in which every event disjunction is replaced by one obtained from it through but(): its first
+    alternative moves to a channel that p does not mention yet.  Returns None when p has no disjunction or no name is free.
+    p's own disjunctions are queried first, so that anything they remember about themselves is in place."""
+    used = set()
+    for e in (p.scope.activator, p.scope.terminator, p.pattern.trigger, p.pattern.behaviour):
+        if e is not None:
+            used.update(s.name for s in e.simple_events())
+    free = [n for n in fresh_names if n not in used]
+    changed = [False]
+
+    def dv(e):
+        if e is None or not e.is_event_disjunction or not free:
+            return e
+        list(e.simple_events())
+        e.aliases()
+        str(e)
+
+        def first(d):
+            if d.event1.is_event_disjunction:
+                return d.but(event1=first(d.event1))
+            return d.but(event1=d.event1.but(name=free.pop(0)))
+        changed[0] = True
+        return first(e)
+    sc = p.scope
+    if sc.activator is not None or sc.terminator is not None:
+        kw = {}
+        if sc.activator is not None:
+            kw['activator'] = dv(sc.activator)
+        if sc.terminator is not None:
+            kw['terminator'] = dv(sc.terminator)
+        sc = sc.but(**kw)
+    kw = {'behaviour': dv(p.pattern.behaviour)}
+    if p.pattern.trigger is not None:
+        kw['trigger'] = dv(p.pattern.trigger)
+    q = p.but(scope=sc, pattern=p.pattern.but(**kw))
+    return q if changed[0] else None
